@@ -74,6 +74,13 @@ CLAIMED = {
         "Random programs are executed on the real torch and tensorflow classes and compared step by step with the model.",
    technique="Lean 4 proof (refinement between two interpreters, induction over programs, parametric in the scalar type) + differential correspondence on random programs, both frameworks",
    design="§5 C10"),
+ "C16": dict(
+   text="Theorems (Props/C16.lean): frame selection returns exactly frames ixs[0], ixs[1], … (select_exact); stepping by k ≥ 1 returns frames 0, k, 2k, … all below the frame count and fps / k (step_exact); for EVERY draw the generic dropout's kept list "
+        "is strictly increasing, within range, the exact complement of the draw (dropout_kept), of length n − k (dropout_length), drops nothing at fraction 0, drops ⌊n·p⌋ frames i.e. within one frame of n·p (dropout_count), and keeps ≥ 1 frame because the cap "
+        "int(0.99 n) < n (dropout_keeps_one); the TensorFlow variant (sort of the first m of any shuffle) is strictly increasing, in range, of length min m n and non-empty (tf_dropout_kept, tf_dropout_keeps_one). All variants incl. the uniform / normal "
+        "wrappers are run on NumPy, torch and tensorflow bodies over many seeds and compared with fancy-indexing by the returned indexes and with the model.",
+   technique="Lean 4 proof (for every draw: list combinatorics, sortedness of mergeSort) + differential run over seeds on three backends",
+   design="§5 C16"),
  "C18": dict(
    text="Theorem (Props/C18.lean): for the cache protocol with atomic lookup+copy and update sections (the code's locked regions), ANY number of threads and ANY schedule, a finished thread holds exactly the "
         "decode of its own file (reads_isolated, by the invariant 'the cache is empty or a consistent snapshot of one file's header'), plus progress; the protocol with a separate compare and fetch is proved to violate "
